@@ -141,6 +141,14 @@ class C03(Check):
         if stratum == 'S-fault':
             per = 2 if solver == 'heun' else 1
             cfg['fault_at'] = rng.randint(0, max(0, steps * per - 1))
+            if rng.random() < 0.35:
+                # an adaptive solver that terminates before T (the RHS turns non-finite from evaluation k on): run() must
+                # refuse loudly or deliver every row - never a shorter frame
+                method = rng.choice(['RK45', 'DOP853', 'LSODA', 'RK23'])
+                cfg.update({'solver': 'scipy', 'solver_kw': {'method': method, 'rtol': 1e-6, 'atol': 1e-8}, 'precision': 'float64',
+                            'fault_at': None, 'nan_from': rng.randint(3, 60)})
+                if cfg['input']:
+                    cfg['input']['kind'] = 'smooth'
         return {'spec': spec, 'cfg': cfg}
 
     # ------------------------------------------------------------------------------------------------
@@ -183,7 +191,7 @@ class C03(Check):
         c = models.build(spec)
         if cfg['backend'] in ('jax', 'fortran') or cfg.get('rowlevel'):
             return self._exec_jax(trace, c, net, names, outputs)
-        rec = Recorder(fault_at=cfg['fault_at'])
+        rec = Recorder(fault_at=cfg['fault_at'], nan_from=cfg.get('nan_from'))
         kw = dict(cfg['solver_kw'])
         if cfg['sampling_arg']:
             kw['sampling_step_size'] = cfg['dts']
@@ -193,7 +201,7 @@ class C03(Check):
             u = input_array(cfg['input'])
             inputs = {cfg['input']['target']: u}
         res = {'violations': viol, 'probes': probes, 'faults': faults,
-               'faults_cfg': {'rhs_fault': 1} if cfg['fault_at'] is not None else {},
+               'faults_cfg': {'rhs_fault': 1} if cfg['fault_at'] is not None else ({'rhs_nan': 1} if cfg.get('nan_from') is not None else {}),
                'digest': digest([spec, cfg]), 'nontrivial': False, 'sim_time': cfg['T'], 'stats': {}}
         try:
             R = c.run(cfg['T'], cfg['dt'], inputs=inputs, outputs=outputs, cutoff=cfg['cutoff'],
@@ -209,6 +217,11 @@ class C03(Check):
             tb = traceback.extract_tb(e.__traceback__)
             where = f'{tb[-1].filename.split("/")[-1]}:{tb[-1].name}'
             gen_file = tb[-1].filename.endswith('pyrates_run.py')
+            if rec.nan_fired:
+                faults['rhs_nan'] = 1
+                bump('early_termination_refused')
+                res['nontrivial'] = True
+                return res
             if rec.calls == 0 or (gen_file and rec.calls <= 1):
                 # the model was refused at compile time / first evaluation: a loud refusal is not a statement about
                 # the solution of the compiled system (C01/C20 territory) -> discarded and counted
@@ -216,6 +229,21 @@ class C03(Check):
                 return res
             V('L-run', 'loud', type(e).__name__, f'run raised {type(e).__name__}: {str(e)[:200]} at {where} '
                                                  f'after {rec.calls} RHS evaluations')
+            return res
+        if cfg.get('nan_from') is not None:
+            if not rec.nan_fired:
+                res['discard'] = 'fault point beyond last evaluation'
+                return res
+            faults['rhs_nan'] = 1
+            rows_all = int(round(cfg['T'] / cfg['dts']))
+            scale = max(cfg['T'], cfg['dts'])
+            must = [j for j in range(rows_all) if j * cfg['dts'] >= cfg['cutoff'] + 1e-9 * scale]
+            if len(R.index) < len(must):
+                V('F-rhs', 'silent', 'short-frame', f'the solver terminated early (RHS non-finite from evaluation {cfg["nan_from"]}); '
+                                                    f'run() returned {len(R.index)} rows instead of {len(must)} without raising')
+                return res
+            bump('early_termination_full_frame')
+            res['nontrivial'] = True
             return res
         if cfg['fault_at'] is not None:
             if rec.fired:
